@@ -103,8 +103,6 @@ Definition enc_outcome (o : outcome) : list N :=
   | OStop e => [12; e]
   | ORunPanics v => [13; v]
   | OCrash => [14]
-  | OCbPanic c => 16 :: N.of_nat (length c) ::
-                  flat_map (fun p => match p with (m, r) => [m; if r : bool then 1 else 0] end) c
   end.
 
 Definition enc_result (r : outcome * list event) : list N :=
